@@ -7,7 +7,7 @@
 From Coq Require Import ZArith Bool List Lia.
 From MomoCommon Require Import GenPrelude.
 From C15 Require Import Gen_VersionKeeper Gen_ArrayIndexIterator Gen_ArrayShifter Gen_ArrayGuards Gen_MultiMapGuards
-  Gen_SelectionGuards Gen_TableGuards Gen_TreeIterator Version VersionProofs Arr.
+  Gen_SelectionGuards Gen_TableGuards Gen_TreeIterator Gen_SegmentedArrayGuards Version VersionProofs Arr.
 Local Open Scope Z_scope.
 
 Definition U64 (x : Z) : Prop := 0 <= x < 2 ^ 64.
@@ -50,7 +50,7 @@ Lemma insertn_guard_exact cnt index count :
   U64 cnt -> U64 count ->
   InsertN_guard cnt index count = if cnt + count <=? 2 ^ 64 - 1 then Ok (cnt + count) else Exn.
 Proof.
-  intros Hc Hn. unfold InsertN_guard, maxSize, U64 in *. cbv zeta.
+  intros Hc Hn. unfold InsertN_guard, Gen_ArrayGuards.maxSize, U64 in *. cbv zeta.
   rewrite (wrapU_small 64 (18446744073709551615 - cnt)) by lia.
   destruct (Z.gtb_spec count (18446744073709551615 - cnt)), (Z.leb_spec (cnt + count) (2 ^ 64 - 1)); try lia; try reflexivity.
   rewrite wrapU_small by lia. reflexivity.
@@ -198,3 +198,19 @@ Proof.
   - intros Q. destruct (Z.eqb_spec q 0); [congruence|]. simpl.
     destruct (allowEmpty && (p =? 0)); [discriminate|]. destruct ((p =? q) && (snap =? mem q)); discriminate.
 Qed.
+
+(* ---------- SegmentedArray's own guards ---------- *)
+Lemma segmented_guards_exact mCount x :
+  SegIndex_guard mCount x = (if x <? mCount then Ok tt else Exn) /\
+  SegRemoveBack_guard mCount x = (if x <=? mCount then Ok tt else Exn) /\
+  (U64 mCount -> U64 x -> forall index, SegInsertN_guard mCount index x = if mCount + x <=? 2 ^ 64 - 1 then Ok tt else Exn).
+Proof.
+  split; [|split].
+  - unfold SegIndex_guard, Gen_SegmentedArrayGuards.checkMode. destruct (x <? mCount); reflexivity.
+  - unfold SegRemoveBack_guard, Gen_SegmentedArrayGuards.checkMode. destruct (x <=? mCount); reflexivity.
+  - intros Hc Hx index. unfold SegInsertN_guard, Gen_SegmentedArrayGuards.maxSize, U64 in *.
+    rewrite (wrapU_small 64 (18446744073709551615 - mCount)) by lia.
+    destruct (Z.gtb_spec x (18446744073709551615 - mCount)), (Z.leb_spec (mCount + x) (2 ^ 64 - 1)); try lia; reflexivity.
+Qed.
+Lemma segmented_same_code c i : SegIndex_guard c i = Index_guard c i /\ SegRemoveBack_guard c i = RemoveBack_guard c i.
+Proof. split; reflexivity. Qed.
